@@ -34,6 +34,7 @@ type Gen struct {
 	b2sAxiom     bool
 	topTr        *Trans
 	viewSyms     map[string]string
+	recentIdx    []Term              // indices of recent slice accesses in the code (instantiation points for quantified facts)
 	hyps         []func(k Term) Term // quantified assumptions, re-evaluable at a given index
 	touchedAll   map[string]Sort     // every key ever written, across dry runs
 }
@@ -97,6 +98,7 @@ type Trans struct {
 	frameTs      []target
 	frameAll     bool
 	frameDone    bool
+	callRank     map[ssa.Instruction]int
 	nameOverride []string // parameter names for spec evaluation (refinement checks)
 }
 
@@ -193,14 +195,38 @@ func (tr *Trans) analyzeCFG() []*ssa.BasicBlock {
 		}
 	}
 	// ordinals by source position of header (fallback block index)
+	loopPos := func(h *ssa.BasicBlock) token.Pos {
+		// smallest source position of any instruction in the loop body
+		var best token.Pos
+		for b := range tr.loops[h].body {
+			for _, in := range b.Instrs {
+				if _, isPhi := in.(*ssa.Phi); isPhi {
+					continue // a phi carries the position of the variable's declaration, which may precede the loop
+				}
+				if p := in.Pos(); p.IsValid() && (best == 0 || p < best) {
+					best = p
+				}
+			}
+		}
+		return best
+	}
 	sort.Slice(headers, func(i, j int) bool {
-		pi, pj := tr.blockPos(headers[i]), tr.blockPos(headers[j])
+		pi, pj := loopPos(headers[i]), loopPos(headers[j])
 		if pi != pj {
 			return pi < pj
 		}
 		return headers[i].Index < headers[j].Index
 	})
 	for i, h := range headers {
+		if tr.top && tr.g.dry == 0 {
+			var names []string
+			for _, in := range h.Instrs {
+				if phi, ok := in.(*ssa.Phi); ok {
+					names = append(names, phi.Comment)
+				}
+			}
+			tr.e.note("%s: loop %d at block %d carries %s", tr.label, i+1, h.Index, strings.Join(names, ","))
+		}
 		tr.loops[h].ordinal = i + 1
 		if tr.contract != nil {
 			tr.loops[h].spec = tr.contract.Loops[i+1]
@@ -355,6 +381,15 @@ func (tr *Trans) runBlocks(order []*ssa.BasicBlock, entrySt *State, entryRC Term
 					}
 				}
 				st = hs
+				for phi, v := range li.phiVals {
+					if phi.Comment == "rangeindex" && len(v.C) == 1 {
+						// implicit invariant of range loops: the index starts at -1 and only increases
+						if ev, ok := entryPhis[phi]; ok && len(ev.C) == 1 && tr.g.dry == 0 {
+							tr.e.oblige(&Obl{Name: fmt.Sprintf("%s#loop%d.entry:rangeindex", tr.label, li.ordinal), Kind: "invariant-entry", Props: tr.propsOf(), Cond: rc, Goal: ge(ev.C[0], intT(-1)), Fn: tr.label})
+						}
+						tr.e.assume(rc, ge(v.C[0], intT(-1)))
+					}
+				}
 				if !all {
 					tr.loopFrame(li, mod, st, rc, "assume", true)
 				}
@@ -394,6 +429,11 @@ func (tr *Trans) runBlocks(order []*ssa.BasicBlock, entrySt *State, entryRC Term
 								phis[phi] = tr.val(phi.Edges[pi])
 							}
 						}
+					}
+				}
+				for phi, v := range phis {
+					if phi.Comment == "rangeindex" && len(v.C) == 1 {
+						tr.e.oblige(&Obl{Name: fmt.Sprintf("%s#loop%d.preserved:rangeindex", tr.label, l2.ordinal), Kind: "invariant-preserved", Props: tr.propsOf(), Cond: c, Goal: ge(v.C[0], intT(-1)), Fn: tr.label})
 					}
 				}
 				tr.checkInvariant(l2, tr.st, c, phis, "preserved")
@@ -682,4 +722,19 @@ func (g *Gen) globalKey(e *Emitter, pkg, name string) string {
 		return key
 	}
 	return "G$" + pkg + "." + name
+}
+
+func (g *Gen) noteIndex(idx Term) {
+	if strings.Contains(idx.S, "!q") {
+		return
+	}
+	for _, x := range g.recentIdx {
+		if x.S == idx.S {
+			return
+		}
+	}
+	g.recentIdx = append(g.recentIdx, idx)
+	if len(g.recentIdx) > 6 {
+		g.recentIdx = g.recentIdx[len(g.recentIdx)-6:]
+	}
 }
